@@ -14,15 +14,17 @@ from zope.interface.adapter import AdapterRegistry, VerifyingAdapterRegistry
 
 from .regmodel import registry_digest, lookup_winners
 from .c07 import V
+from .common import wmod, newworld
 
 FLAVOURS = {'adapter': AdapterRegistry, 'verifying': VerifyingAdapterRegistry}
 
 
 def mk(n, *b):
-    return InterfaceClass(n, b or (Interface,), {'__module__': 'w'})
+    return InterfaceClass(n, b or (Interface,), {'__module__': wmod()})
 
 
 def build(flavour):
+    newworld()
     W = {'R0': mk('R0'), 'P0': mk('P0')}
     W['R1'] = mk('R1', W['R0'])
     W['P1'] = mk('P1', W['P0'])
